@@ -11,8 +11,9 @@ from concurrent.futures import ThreadPoolExecutor
 from pathlib import Path
 
 V = Path(__file__).resolve().parent.parent
-tri = json.loads((V / "reported" / "triage.json").read_text())
-scripts = sorted((V / "reported").glob("C*/found*.py"), key=lambda p: (p.parent.name, int(re.sub(r"\D", "", p.stem) or 0), p.stem))
+ROUND = sys.argv[2] if len(sys.argv) > 2 else "reported"  # directory name: reported (round 3) / reported4 (round 4)
+tri = json.loads((V / ROUND / "triage.json").read_text())
+scripts = sorted((V / ROUND).glob("C*/found*.py"), key=lambda p: (p.parent.name, int(re.sub(r"\D", "", p.stem) or 0), p.stem))
 
 
 def run(p: Path) -> int:
@@ -30,6 +31,6 @@ rows = []
 for p, rc in zip(scripts, rcs):
     c, f = p.parent.name, p.stem
     disp = "repaired in /repo (script now exits 0)" if rc == 0 else (tri.get(c, {}).get(f) or tri.get(c, {}).get("*") or tri["_default_open"])
-    rows.append({"property": c, "script": f"reported/{c}/{f}.py", "exit_on_head": rc, "disposition": disp})
-(V / "reported" / "status.json").write_text(json.dumps(rows, indent=1) + "\n")
+    rows.append({"property": c, "script": f"{ROUND}/{c}/{f}.py", "exit_on_head": rc, "disposition": disp})
+(V / ROUND / "status.json").write_text(json.dumps(rows, indent=1) + "\n")
 print(len(rows), "scripts;", sum(1 for r in rows if r["exit_on_head"] == 0), "exit 0")
